@@ -137,6 +137,8 @@ def crash_sig(o):
 
 def judge(ctx, en, a, b):
     inp = {"lang": en["lang"], "src": en["src"]}
+    if en.get("history"):
+        inp["history"] = en["history"]
     if a["k"] == "exc":
         if a["at"][0] == "<outside>" and a["type"] in ("AttributeError", "SyntaxError", "NameError"):
             return  # the generated source called a method this kind of constituent does not have: not a library crash
@@ -293,6 +295,38 @@ def entries_for(ctx, deep=False):
     return ents
 
 
+def family_entries():
+    """one small clause per (language, notation, interrogative / flag, pronoun subject, tense): realized one after the other
+    in ONE process (see run): a crash that needs an earlier realization in the same process (module-level state consumed
+    or left behind by a previous call) shows on the second member of its family"""
+    out = []
+    ints = ["yon", "wos", "wod", "woi", "wad", "wai", "whe", "why", "whn", "how", "muc", "tag"]
+    flags = ['"neg":True', '"pas":True', '"prog":True', '"perf":True', '"mod":"poss"', '"exc":True', '"refl":True', '"contr":True', '"maje":True']
+    for lang, subjs, v, o, tenses in (("en", ['Pro("I").pe(1)', 'Pro("I").pe(2)', 'Pro("I").pe(3).n("p")', 'NP(D("the"),N("cat"))'], "see",
+                                       'NP(D("a"),N("mouse"))', ["p", "ps", "f"]),
+                                      ("fr", ['Pro("je").pe(1)', 'Pro("je").pe(2)', 'Pro("je").pe(3).n("p")', 'NP(D("le"),N("chat"))'], "regarder",
+                                       'NP(D("un"),N("souris"))', ["p", "pc", "f"])):
+        for subj in subjs:
+            for t in tenses:
+                for typ in ['"int":"%s"' % i for i in ints] + flags:
+                    out.append({"lang": lang, "src": 'S(%s,VP(V("%s").t("%s"),%s)).typ({%s})' % (subj, v, t, o, typ)})
+                    hd = subj[4:-1] if subj.startswith("NP(") else None
+                    sd = ('subj(N("%s"),det(D("%s")))' % (("cat", "the") if lang == "en" else ("chat", "le"))) if hd else "subj(%s)" % subj
+                    od = 'comp(N("%s"),det(D("%s")))' % (("mouse", "a") if lang == "en" else ("souris", "un"))
+                    out.append({"lang": lang, "src": 'root(V("%s").t("%s"),%s,%s).typ({%s})' % (v, t, sd, od, typ)})
+    return out
+
+
+def work_sequential(conn, entries):
+    """child process: the whole list twice, one after the other, in this single process"""
+    try:
+        res = work(entries) + work(entries)
+        conn.send(res)
+    except BaseException as e:  # noqa
+        conn.send({"error": repr(e)})
+    conn.close()
+
+
 def run(ctx, deep=False):
     core.ensure_repo_on_path()
     import pyrealb  # noqa
@@ -300,8 +334,37 @@ def run(ctx, deep=False):
     ents = entries_for(ctx, deep)
     nproc = min(16, os.cpu_count() or 4)
     chunks = [ents[i:i + 400] for i in range(0, len(ents), 400)]
-    with multiprocessing.get_context("fork").Pool(nproc) as pool:
+    # sequential stream in ONE fresh process (process-level state accumulates deterministically): the clause families and
+    # a slice of the corpus, the whole list twice
+    seq = family_entries() + ents[:(1500 if ctx.tier == "thorough" or deep else 500)]
+    mp = multiprocessing.get_context("fork")
+    parent_conn, child_conn = mp.Pipe(duplex=False)
+    seqproc = mp.Process(target=work_sequential, args=(child_conn, seq))
+    seqproc.start()
+    child_conn.close()
+    with mp.Pool(nproc) as pool:
         results = pool.map(work, chunks, chunksize=1)
+    try:
+        seqres = parent_conn.recv() if parent_conn.poll(1200) else {"error": "timeout"}
+    except EOFError:
+        seqres = {"error": "sequential child died"}
+    seqproc.join(10)
+    if isinstance(seqres, dict):
+        raise core.Infra("sequential stream: " + seqres.get("error", "?"))
+    first = {}
+    for k, (en, (a, b)) in enumerate(zip(seq + seq, seqres)):
+        key = (en["lang"], en["src"])
+        ctx.count({"lang": en["lang"], "src": en["src"], "stream": "sequential", "pass": 1 + k // len(seq)}, {"unflagged": a, "flagged": b["k"]},
+                  trivial=(a["k"] == "ok" and a["w"] == 0))
+        if k < len(seq):
+            first[key] = (a["k"], b["k"])
+        elif first.get(key) != (a["k"], b["k"]) and first.get(key) is not None:
+            ctx.fail("outcome-depends-on-earlier-realizations-in-the-process:%s->%s" % ("/".join(first[key]), "/".join((a["k"], b["k"]))),
+                     {"lang": en["lang"], "src": en["src"], "history": "realized a second time in the same process after the %d expressions of the sequential stream" % len(seq)},
+                     {"first": first[key], "second": {"unflagged": a, "flagged": b}})
+            continue
+        judge(ctx, dict(en, history="sequential stream, position %d" % k), a, b)
+    ctx.notes["sequential_stream"] = 2 * len(seq)
     stats = {"ok": 0, "ok+warn": 0, "exc": 0, "flag-exception": 0, "malformed": 0}
     i = 0
     for ch, rs in zip(chunks, results):
